@@ -1,4 +1,4 @@
-open List in
-#check @List.dropLast_concat_getLast
-#check @List.dropLast_append_getLast?
-#check @List.getLast_mem
+#check @Int.natCast_emod
+#check @Int.ofNat_emod
+example (m n : Nat) : ((m % n : Nat) : Int) = (m : Int) % (n : Int) := by omega
+example (m n : Nat) : ((m % n : Nat) : Int) = (m : Int) % (n : Int) := Int.natCast_emod m n
